@@ -258,7 +258,7 @@ func (s *store) leader() string {
 func (s *store) leaderHTTP() string {
 	s.mu.RLock()
 	defer s.mu.RUnlock()
-	if s.raftState == nil {
+	if s.raftState == nil || s.raftState.raft == nil {
 		return ""
 	}
 	l, _ := s.raftState.raft.LeaderWithID()
